@@ -156,7 +156,13 @@ def mk_array(st, j, body, closed=True, pats=()):
         st.assume(a == z3.Lambda([j], body), glob=True)
     else:
         ps = [z3.Select(a, j)]
-        for p_ in pats:
+
+        def _pat_ok(t):
+            # z3 rejects patterns that contain ite / boolean connectives (it only prints a warning)
+            if z3.is_app(t) and t.decl().kind() in (z3.Z3_OP_ITE, z3.Z3_OP_AND, z3.Z3_OP_OR, z3.Z3_OP_NOT, z3.Z3_OP_IMPLIES):
+                return False
+            return all(_pat_ok(c) for c in t.children())
+        for p_ in [q for q in pats if _pat_ok(q)]:
             try:
                 z3.ForAll([j], z3.Select(a, j) == body, patterns=[p_])
                 ps.append(p_)
